@@ -98,10 +98,13 @@ class NLProb:
             Hm = Hm + zk * f.hess(x)
         return Hm
 
-    def make_F(self, log, sparse_Df=False, sparse_H=False, scalar_f=False, none_style=0):
-        """cvxopt call-back.  log receives (kind, x, indom) for every call."""
+    def make_F(self, log, sparse_Df=False, sparse_H=False, scalar_f=False, none_style=0, keep_x0=False):
+        """cvxopt call-back.  log receives (kind, x, indom) for every call.
+        keep_x0: F() returns the same caller-owned matrix object on every call (F.x0_object); a solver that
+        uses it as its iterate overwrites the caller's start point."""
         from cvxopt import matrix, spmatrix, sparse
         prob = self
+        x0_object = matrix([float(v) for v in prob.x0], (prob.n, 1)) if keep_x0 else None
         m = len(self.funcs)
         mret = m if self.kind == "cpl" else m - 1
 
@@ -113,6 +116,8 @@ class NLProb:
         def F(x=None, z=None):
             if x is None:
                 log.append(("start", None, True))
+                if x0_object is not None:
+                    return mret, x0_object
                 return mret, matrix([float(v) for v in prob.x0], (prob.n, 1))
             xv = np.array(list(x), dtype=float)
             ind = prob.indom(xv)
@@ -132,6 +137,7 @@ class NLProb:
             if prob.junkH is not None:
                 Hl = Hl + np.triu(prob.junkH, 1)
             return fm, mk(Df, sparse_Df), mk(Hl, sparse_H)
+        F.x0_object = x0_object
         return F
 
 
